@@ -288,11 +288,11 @@ func cexec(line string) (string, string) {
 		if !ok || len(w) != 2 || c.txns[t] == nil || c.inflight[t] != nil {
 			return line, "illegal"
 		}
-		before := latch.VerifWaitingTotal(c.lat)
+		// one background Commit at a time and no other requester: whoever is queued is this Commit
 		c.start(t)
 		t0 := time.Now()
-		for time.Since(t0) < 10*time.Second {
-			if latch.VerifWaitingTotal(c.lat) > before {
+		for time.Since(t0) < 30*time.Second {
+			if latch.VerifWaitingTotal(c.lat) > 0 {
 				return line, "queued"
 			}
 			select {
